@@ -279,6 +279,9 @@ class NumInterp(Interp):
             raise Unsupported(f'{n.value.id}.{n.attr} not in the whitelist')
         if isinstance(n, (ast.ListComp, ast.GeneratorExp)):
             return self._comp(n, 0, [])
+        if isinstance(n, ast.DictComp):
+            pairs = self._comp(ast.ListComp(elt=ast.Tuple(elts=[n.key, n.value], ctx=ast.Load()), generators=n.generators), 0, [])
+            return dict(pairs)
         if isinstance(n, ast.Call):
             if isinstance(n.func, ast.Attribute) and n.func.attr in ('conjugate', 'conj') and not n.args:
                 v = self.ev(n.func.value)
